@@ -14,17 +14,7 @@ Layout
 namespace Cppcheck.Match
 open Cppcheck.Wire
 
-/-! ## hypotheses (decidable) -/
-
-/-- the pattern is a C string: it contains no NUL byte (a `const char*` ends at the first NUL, the
-    model's `List Char` would carry on behind it) -/
-def noNul (p : Str) : Bool := p.all (· ≠ '\x00')
-
-/-- token text the interpreter handles like the documented language: no blank, no NUL.
-    (`Token::Match` compares `tok->str().c_str()` bytewise against the pattern: a blank inside the
-    token is taken for the pattern's word separator, and a NUL ends `c_str()`.)  The empty text is
-    allowed. -/
-def TokStrOK (t : Tok) : Bool := t.str.all (fun c => c ≠ ' ' && c ≠ '\x00')
+/-! ## hypotheses (decidable): `noNul`, `TokStrOK` live in Model/Match.lean §5 -/
 
 /-- what may follow a word inside a pattern: the end, or a blank -/
 def restOK : Str → Prop
@@ -368,74 +358,17 @@ theorem mcl_lit_start (t : Tok) (v : Nat) (tail : Str) (R : MC) (hR : tailRes t 
           rw [skipRes_tail t v f x tail R (fun z hz => ⟨(hx' z hz).1, (hx' z hz).2.1⟩) hR (by omega)]
           simp [hdc]
 
-/-- spelling of a command -/
-def Cmd.spell : Cmd → Str
-  | .any => ['%','a','n','y','%'] | .assign => ['%','a','s','s','i','g','n','%'] | .bool => ['%','b','o','o','l','%']
-  | .char => ['%','c','h','a','r','%'] | .comp => ['%','c','o','m','p','%'] | .num => ['%','n','u','m','%']
-  | .cop => ['%','c','o','p','%'] | .op => ['%','o','p','%'] | .or => ['%','o','r','%'] | .oror => ['%','o','r','o','r','%']
-  | .str => ['%','s','t','r','%'] | .type => ['%','t','y','p','e','%'] | .name => ['%','n','a','m','e','%']
-  | .var => ['%','v','a','r','%'] | .varid => ['%','v','a','r','i','d','%']
-
-theorem Cmd.ofStr_spell (c : Cmd) : Cmd.ofStr c.spell = some c := by cases c <;> decide
-
-theorem Cmd.ofStr_some (a : Str) (c : Cmd) (h : Cmd.ofStr a = some c) : a = c.spell := by
-  unfold Cmd.ofStr at h
-  by_cases h1 : a = "%any%".toList
-  · rw [if_pos h1] at h; cases h; rw [h1]; rfl
-  rw [if_neg h1] at h; clear h1
-  by_cases h1 : a = "%assign%".toList
-  · rw [if_pos h1] at h; cases h; rw [h1]; rfl
-  rw [if_neg h1] at h; clear h1
-  by_cases h1 : a = "%bool%".toList
-  · rw [if_pos h1] at h; cases h; rw [h1]; rfl
-  rw [if_neg h1] at h; clear h1
-  by_cases h1 : a = "%char%".toList
-  · rw [if_pos h1] at h; cases h; rw [h1]; rfl
-  rw [if_neg h1] at h; clear h1
-  by_cases h1 : a = "%comp%".toList
-  · rw [if_pos h1] at h; cases h; rw [h1]; rfl
-  rw [if_neg h1] at h; clear h1
-  by_cases h1 : a = "%num%".toList
-  · rw [if_pos h1] at h; cases h; rw [h1]; rfl
-  rw [if_neg h1] at h; clear h1
-  by_cases h1 : a = "%cop%".toList
-  · rw [if_pos h1] at h; cases h; rw [h1]; rfl
-  rw [if_neg h1] at h; clear h1
-  by_cases h1 : a = "%op%".toList
-  · rw [if_pos h1] at h; cases h; rw [h1]; rfl
-  rw [if_neg h1] at h; clear h1
-  by_cases h1 : a = "%or%".toList
-  · rw [if_pos h1] at h; cases h; rw [h1]; rfl
-  rw [if_neg h1] at h; clear h1
-  by_cases h1 : a = "%oror%".toList
-  · rw [if_pos h1] at h; cases h; rw [h1]; rfl
-  rw [if_neg h1] at h; clear h1
-  by_cases h1 : a = "%str%".toList
-  · rw [if_pos h1] at h; cases h; rw [h1]; rfl
-  rw [if_neg h1] at h; clear h1
-  by_cases h1 : a = "%type%".toList
-  · rw [if_pos h1] at h; cases h; rw [h1]; rfl
-  rw [if_neg h1] at h; clear h1
-  by_cases h1 : a = "%name%".toList
-  · rw [if_pos h1] at h; cases h; rw [h1]; rfl
-  rw [if_neg h1] at h; clear h1
-  by_cases h1 : a = "%var%".toList
-  · rw [if_pos h1] at h; cases h; rw [h1]; rfl
-  rw [if_neg h1] at h; clear h1
-  by_cases h1 : a = "%varid%".toList
-  · rw [if_pos h1] at h; cases h; rw [h1]; rfl
-  rw [if_neg h1] at h; clear h1
-  exact absurd h (by simp)
+-- `Cmd.spell`, `Cmd.ofStr_spell`, `Cmd.ofStr_some`: Proofs/Match.lean
 
 /-- `multiComparePercent` decodes each of the 15 commands and leaves the haystack behind it -/
-theorem pct_eval (t : Tok) (v : Nat) (c : Cmd) (tail : Str) (hv : c = .varid → v ≠ 0)
+theorem pct_eval (t : Tok) (v : Nat) (c : Cmd) (tail : Str)
     (htl : at0 tail 0 ≠ '%') :
     multiComparePercent t (c.spell ++ tail) v =
-      if c.eval t v then .one else if at0 tail 0 = '|' then .cont (tail.drop 1) else .minus := by
+      if c = .varid ∧ v = 0 then .thrw
+      else if c.eval t v then .one else if at0 tail 0 = '|' then .cont (tail.drop 1) else .minus := by
   cases c <;>
     simp [multiComparePercent, Cmd.spell, Cmd.eval, at0, Tok.isOp, Tok.isConstOp]
   · intro h; exact absurd h (by simpa [at0] using htl)
-  · intro h0; exact absurd h0 (hv rfl)
 
 theorem spell_head (c : Cmd) : ∃ l x, c.spell = '%' :: l :: x ∧ l ≠ '|' ∧ l ≠ '\x00' ∧ l ≠ ' ' ∧ l ≠ '=' := by
   cases c <;> exact ⟨_, _, rfl, by decide, by decide, by decide, by decide⟩
@@ -445,12 +378,13 @@ theorem spell_chars (c : Cmd) : ∀ x ∈ c.spell, x ≠ '|' ∧ x ≠ ' ' ∧ x
 
 /-- a `%cmd%` alternative at the start of the token text -/
 theorem mcl_cmd (t : Tok) (v : Nat) (tail : Str) (R : MC) (hR : tailRes t v tail R)
-    (c : Cmd) (f : Nat) (hv : c = .varid → v ≠ 0) (hf : (c.spell ++ tail).length < f) :
-    multiCompareLoop t v f (c.spell ++ tail) t.str true = if c.eval t v then .one else R := by
+    (c : Cmd) (f : Nat) (hf : (c.spell ++ tail).length < f) :
+    multiCompareLoop t v f (c.spell ++ tail) t.str true =
+      if c = .varid ∧ v = 0 then .thrw else if c.eval t v then .one else R := by
   cases f with
   | zero => omega
   | succ f =>
-    have hp := pct_eval t v c tail hv (by
+    have hp := pct_eval t v c tail (by
       rcases tailRes_head t v tail R hR with h | h | h <;> rw [h] <;> decide)
     obtain ⟨l, x, hs, h1, h2, h3, h4⟩ := spell_head c
     have hlen : tail.length + 2 ≤ (c.spell ++ tail).length := by rw [hs]; simp
@@ -458,6 +392,9 @@ theorem mcl_cmd (t : Tok) (v : Nat) (tail : Str) (R : MC) (hR : tailRes t v tail
     simp only [List.cons_append] at hp ⊢
     simp only [multiCompareLoop, at0_cons_zero, at0_cons_succ, h1, h2, h3, h4, ne_eq, not_false_eq_true,
       and_self, if_true, hp]
+    by_cases hthr : c = .varid ∧ v = 0
+    · simp only [hthr, and_self, if_true]
+    simp only [hthr, if_false]
     by_cases he : c.eval t v = true
     · simp only [he, if_true]
     · simp only [he, Bool.false_eq_true, if_false]
@@ -488,9 +425,10 @@ theorem isCmdOrPlain_ne_nil (a : Str) (h : isCmdOrPlain a = true) : a ≠ [] := 
 /-- one alternative (command or plain literal) followed by `tail` -/
 theorem mcl_alt (t : Tok) (v : Nat) (ht : TokStrOK t = true) (tail : Str) (R : MC)
     (hR : tailRes t v tail R) (a : Str) (f : Nat) (ha : isCmdOrPlain a = true)
-    (hnul : ∀ c ∈ a, c ≠ '\x00') (hv : Atom.ofStr a = .cmd .varid → v ≠ 0)
+    (hnul : ∀ c ∈ a, c ≠ '\x00')
     (hf : (a ++ tail).length < f) :
-    multiCompareLoop t v f (a ++ tail) t.str true = if (Atom.ofStr a).eval t v then .one else R := by
+    multiCompareLoop t v f (a ++ tail) t.str true =
+      match (Atom.ofStr a).evalR t v with | .t => .one | .err => .thrw | .f => R := by
   have htc := tokStrOK_iff t ht
   unfold isCmdOrPlain at ha
   cases h : Cmd.ofStr a with
@@ -498,9 +436,13 @@ theorem mcl_alt (t : Tok) (v : Nat) (ht : TokStrOK t = true) (tail : Str) (R : M
     have ha' := Cmd.ofStr_some a c h
     subst ha'
     have hat : Atom.ofStr c.spell = .cmd c := by simp [Atom.ofStr, h]
-    rw [hat] at hv ⊢
-    simp only [Atom.eval]
-    exact mcl_cmd t v tail R hR c f (fun e => hv (by rw [e])) hf
+    rw [hat]
+    rw [mcl_cmd t v tail R hR c f hf]
+    simp only [Atom.evalR, Atom.eval, Atom.cmd.injEq]
+    by_cases hthr : c = .varid ∧ v = 0
+    · simp [hthr]
+    · simp only [hthr, if_false]
+      by_cases he : c.eval t v = true <;> simp [he, Res.ofBool]
   | none =>
     rw [h] at ha
     simp only [Bool.and_eq_true, Bool.or_eq_true, Bool.not_eq_true', decide_eq_true_eq, ne_eq,
@@ -508,7 +450,13 @@ theorem mcl_alt (t : Tok) (v : Nat) (ht : TokStrOK t = true) (tail : Str) (R : M
     obtain ⟨⟨⟨hne, hbar⟩, hsp⟩, hpc⟩ := ha
     have hat : Atom.ofStr a = .lit a := by simp [Atom.ofStr, h]
     rw [hat]
-    simp only [Atom.eval, decide_eq_true_eq]
+    have hlit : (Atom.lit a).evalR t v = .ofBool (decide (t.str = a)) := by
+      simp [Atom.evalR, Atom.eval]
+    rw [hlit]
+    have hgoal : (match Res.ofBool (decide (t.str = a)) with | .t => MC.one | .err => .thrw | .f => R) =
+        if t.str = a then .one else R := by
+      by_cases he : t.str = a <;> simp [he, Res.ofBool]
+    rw [hgoal]
     refine mcl_lit_start t v tail R hR a t.str f hne ?_ ?_ htc hf
     · intro c hc
       exact ⟨fun e => hbar (e ▸ hc), fun e => hsp (e ▸ hc), hnul c hc⟩
@@ -572,8 +520,11 @@ def partsOK : List Str → Prop
 
 def mcSpec (t : Tok) (v : Nat) (e : Bool) : List Str → MC
   | [] => .minus
-  | [a] => if a = [] then (if e then .one else .zero) else if (Atom.ofStr a).eval t v then .one else .minus
-  | a :: b :: r => if (Atom.ofStr a).eval t v then .one else mcSpec t v e (b :: r)
+  | [a] =>
+    if a = [] then (if e then .one else .zero)
+    else match (Atom.ofStr a).evalR t v with | .t => .one | .err => .thrw | .f => .minus
+  | a :: b :: r =>
+    match (Atom.ofStr a).evalR t v with | .t => .one | .err => .thrw | .f => mcSpec t v e (b :: r)
 
 theorem tailRes_rest (t : Tok) (v : Nat) (rest : Str) (hr : restOK rest) : tailRes t v rest .minus := by
   cases rest with
@@ -583,7 +534,6 @@ theorem tailRes_rest (t : Tok) (v : Nat) (rest : Str) (hr : restOK rest) : tailR
 /-- the whole alternatives word -/
 theorem mcl_parts (t : Tok) (v : Nat) (ht : TokStrOK t = true) (rest : Str) (hr : restOK rest) :
     ∀ parts : List Str, partsOK parts → (∀ a ∈ parts, ∀ c ∈ a, c ≠ '\x00') →
-      (∀ a ∈ parts, Atom.ofStr a = .cmd .varid → v ≠ 0) →
       ∀ f, (bars parts ++ rest).length < f →
         multiCompareLoop t v f (bars parts ++ rest) t.str true =
           mcSpec t v (decide (t.str = [] ∧ rest = [])) parts := by
@@ -591,7 +541,7 @@ theorem mcl_parts (t : Tok) (v : Nat) (ht : TokStrOK t = true) (rest : Str) (hr 
   induction parts with
   | nil => intro h; exact absurd h (by simp [partsOK])
   | cons a ps ih =>
-    intro hok hnul hv f hf
+    intro hok hnul f hf
     cases ps with
     | nil =>
       simp only [partsOK] at hok
@@ -603,7 +553,7 @@ theorem mcl_parts (t : Tok) (v : Nat) (ht : TokStrOK t = true) (rest : Str) (hr 
         | succ f => simpa using mcl_empty t v ht rest hr f
       · rcases hok with hok | hok
         · exact absurd hok hae
-        · rw [mcl_alt t v ht rest .minus (tailRes_rest t v rest hr) a f hok (hnul a (by simp)) (hv a (by simp)) hf]
+        · rw [mcl_alt t v ht rest .minus (tailRes_rest t v rest hr) a f hok (hnul a (by simp)) hf]
           simp [hae]
     | cons b r =>
       simp only [partsOK] at hok
@@ -611,13 +561,15 @@ theorem mcl_parts (t : Tok) (v : Nat) (ht : TokStrOK t = true) (rest : Str) (hr 
       have hR : tailRes t v ('|' :: (bars (b :: r) ++ rest)) (mcSpec t v (decide (t.str = [] ∧ rest = [])) (b :: r)) := by
         simp only [tailRes, if_true]
         intro f' hf'
-        exact ih hok.2 (fun a' ha' => hnul a' (by simp [ha'])) (fun a' ha' => hv a' (by simp [ha'])) f' hf'
-      exact mcl_alt t v ht _ _ hR a f hok.1 (hnul a (by simp)) (hv a (by simp)) hf
+        exact ih hok.2 (fun a' ha' => hnul a' (by simp [ha'])) f' hf'
+      exact mcl_alt t v ht _ _ hR a f hok.1 (hnul a (by simp)) hf
 
 theorem mcSpec_eq (t : Tok) (v : Nat) (e : Bool) : ∀ parts : List Str, partsOK parts →
     mcSpec t v e parts =
-      if ((parts.filter (· ≠ [])).map Atom.ofStr).any (·.eval t v) then .one
-      else if parts.any (· = []) then (if e then .one else .zero) else .minus := by
+      match altsR ((parts.filter (· ≠ [])).map Atom.ofStr) t v with
+      | .t => .one
+      | .err => .thrw
+      | .f => if parts.any (· = []) then (if e then .one else .zero) else .minus := by
   intro parts
   induction parts with
   | nil => intro h; exact absurd h (by simp [partsOK])
@@ -628,25 +580,26 @@ theorem mcSpec_eq (t : Tok) (v : Nat) (e : Bool) : ∀ parts : List Str, partsOK
       simp only [partsOK] at hok
       simp only [mcSpec]
       by_cases hae : a = []
-      · simp [hae]
-      · by_cases he : (Atom.ofStr a).eval t v = true <;> simp [hae, he]
+      · simp [hae, altsR]
+      · cases he : (Atom.ofStr a).evalR t v <;> simp [hae, he, altsR]
     | cons b r =>
       simp only [partsOK] at hok
       have hae := isCmdOrPlain_ne_nil a hok.1
       simp only [mcSpec, ih hok.2]
-      by_cases he : (Atom.ofStr a).eval t v = true <;> simp [hae, he]
+      cases he : (Atom.ofStr a).evalR t v <;> simp [hae, he, altsR]
 
 /-- `multiCompare` on an alternatives word followed by the end or a blank -/
 theorem multiCompare_parts (t : Tok) (v : Nat) (ht : TokStrOK t = true) (rest : Str) (hr : restOK rest)
-    (parts : List Str) (hok : partsOK parts) (hnul : ∀ a ∈ parts, ∀ c ∈ a, c ≠ '\x00')
-    (hv : ∀ a ∈ parts, Atom.ofStr a = .cmd .varid → v ≠ 0) :
+    (parts : List Str) (hok : partsOK parts) (hnul : ∀ a ∈ parts, ∀ c ∈ a, c ≠ '\x00') :
     multiCompare t (bars parts ++ rest) v =
-      if ((parts.filter (· ≠ [])).map Atom.ofStr).any (·.eval t v) then .one
-      else if parts.any (· = []) then (if decide (t.str = [] ∧ rest = []) then .one else .zero)
-      else .minus := by
+      match altsR ((parts.filter (· ≠ [])).map Atom.ofStr) t v with
+      | .t => .one
+      | .err => .thrw
+      | .f => if parts.any (· = []) then (if decide (t.str = [] ∧ rest = []) then .one else .zero)
+              else .minus := by
   unfold multiCompare
   simp only [decide_true]
-  rw [mcl_parts t v ht rest hr parts hok hnul hv _ (by omega), mcSpec_eq t v _ parts hok]
+  rw [mcl_parts t v ht rest hr parts hok hnul _ (by omega), mcSpec_eq t v _ parts hok]
 
 /-! ## §3 `[..]` and `!!` -/
 
@@ -753,52 +706,7 @@ theorem firstWordEquals_word (rest : Str) (hr : restOK rest) :
 
 /-! ## §4 word classification -/
 
-def clsCond (w : Str) : Prop := w.length > 2 ∧ w.head? = some '[' ∧ w.getLast? = some ']'
-def altCond (w : Str) : Bool := match findIdx '|' w with | some (_ + 1) => true | _ => false
-
-theorem ofStr_cls (w : Str) (h : clsCond w) : Word.ofStr w = .cls ((w.drop 1).dropLast) := by
-  unfold clsCond at h
-  simp only [Word.ofStr]
-  rw [if_pos h]
-
-theorem ofStr_alts (w : Str) (h1 : ¬ clsCond w) (h2 : altCond w = true) :
-    Word.ofStr w = .alts (((splitOn '|' w).filter (· ≠ [])).map Atom.ofStr) ((splitOn '|' w).any (· = [])) := by
-  unfold clsCond at h1
-  unfold altCond at h2
-  simp only [Word.ofStr]
-  rw [if_neg h1]
-  cases hf : findIdx '|' w with
-  | none => simp [hf] at h2
-  | some n =>
-    cases n with
-    | zero => simp [hf] at h2
-    | succ m => simp
-
-theorem ofStr_neg (w : Str) (h1 : ¬ clsCond w) (h2 : altCond w = false) (h3 : w.take 2 = ['!', '!']) :
-    Word.ofStr w = .neg (w.drop 2) := by
-  unfold clsCond at h1
-  unfold altCond at h2
-  simp only [Word.ofStr]
-  rw [if_neg h1]
-  cases hf : findIdx '|' w with
-  | none => simp [h3]
-  | some n =>
-    cases n with
-    | zero => simp [h3]
-    | succ m => simp [hf] at h2
-
-theorem ofStr_one (w : Str) (h1 : ¬ clsCond w) (h2 : altCond w = false) (h3 : ¬ w.take 2 = ['!', '!']) :
-    Word.ofStr w = .one (Atom.ofStr w) := by
-  unfold clsCond at h1
-  unfold altCond at h2
-  simp only [Word.ofStr]
-  rw [if_neg h1]
-  cases hf : findIdx '|' w with
-  | none => simp [h3]
-  | some n =>
-    cases n with
-    | zero => simp [h3]
-    | succ m => simp [hf] at h2
+-- `clsCond`, `altCond`, `ofStr_cls/alts/neg/one`: Proofs/Match.lean
 
 theorem cls_shape (w : Str) (h : clsCond w) :
     ∃ cs, cs ≠ [] ∧ w = '[' :: (cs ++ [']']) ∧ (w.drop 1).dropLast = cs := by
@@ -1034,25 +942,25 @@ theorem notCls (w rest : Str) (hw : ∀ x ∈ w, x ≠ ' ') (hr : restOK rest) (
 /-- the induction hypothesis, packaged: the loop on the rest of the pattern computes `semWords ws` -/
 def ContOK (f : Nat) (rest : Str) (ws : List Word) (v : Nat) : Prop :=
   (rest = [] → ws = []) ∧
-  ∀ ts', (∀ t ∈ ts', TokStrOK t = true) → interpLoop f rest ts' v = Res.ofBool (semWords ws ts' v)
+  ∀ ts', (∀ t ∈ ts', TokStrOK t = true) → interpLoop f rest ts' v = langWords ws ts' v
 
 theorem cont_eq (f : Nat) (rest : Str) (ws : List Word) (v : Nat) (hK : ContOK f rest ws v)
     (hr : restOK rest) (r : List Tok) (hts : ∀ t ∈ r, TokStrOK t = true) (q : Str)
     (hq : toSpace q = toSpace rest) :
     (match toSpace q with | none => Res.t | some p' => interpLoop f p' r v) =
-      Res.ofBool (semWords ws r v) := by
+      langWords ws r v := by
   rw [hq]
   have := toSpace_word [] rest (by simp) hr
   simp only [List.nil_append] at this
   rw [this]
   by_cases he : rest = []
-  · simp [he, hK.1 he, semWords, Res.ofBool]
+  · simp [he, hK.1 he, langWords]
   · simp only [he, if_false]
     exact hK.2 r hts
 
 theorem step_cls (f v : Nat) (cs rest : Str) (ws : List Word) (hK : ContOK f rest ws v)
     (hcs : ∀ x ∈ cs, x ≠ ' ') (hr : restOK rest) (ts : List Tok) (hts : ∀ t ∈ ts, TokStrOK t = true) :
-    interpBody f ('[' :: (cs ++ [']']) ++ rest) ts v = Res.ofBool (semWords (.cls cs :: ws) ts v) := by
+    interpBody f ('[' :: (cs ++ [']']) ++ rest) ts v = langWords (.cls cs :: ws) ts v := by
   have hw : ∀ x ∈ '[' :: (cs ++ [']']), x ≠ ' ' := by
     intro x hx
     simp only [List.mem_cons, List.mem_append, List.mem_nil_iff, or_false] at hx
@@ -1067,19 +975,18 @@ theorem step_cls (f v : Nat) (cs rest : Str) (ws : List Word) (hK : ContOK f res
   cases ts with
   | nil =>
     simp only [interpBody, hne, if_false, h0, hchr, show ('[' : Char) ≠ '!' by decide, false_and, and_self,
-      not_true_eq_false, semWords, Res.ofBool]
-    simp
+      not_true_eq_false, langWords]
   | cons t r =>
     have hr' : ∀ t' ∈ r, TokStrOK t' = true := fun t' h' => hts t' (by simp [h'])
-    simp only [interpBody, hne, if_false, h0, hchr, and_self, if_true, semWords]
+    simp only [interpBody, hne, if_false, h0, hchr, and_self, if_true, langWords]
     have hdrop : List.drop 1 ('[' :: (cs ++ [']']) ++ rest) = (cs ++ [']']) ++ rest := by simp
     rw [hdrop]
     have hcs' : ∀ x ∈ cs ++ [']'], x ≠ ' ' := fun x hx => hw x (by simp only [List.mem_cons]; exact Or.inr hx)
     cases hs : t.str with
-    | nil => simp [Res.ofBool]
+    | nil => simp
     | cons c cr =>
       cases cr with
-      | cons _ _ => simp [Res.ofBool]
+      | cons _ _ => simp
       | nil =>
         simp only
         by_cases hc : c = ']'
@@ -1091,7 +998,7 @@ theorem step_cls (f v : Nat) (cs rest : Str) (ws : List Word) (hK : ContOK f res
           · have : 0 < List.count ']' cs := List.count_pos_iff.mpr hm
             simp [hm, this, hq]
           · have : List.count ']' cs = 0 := List.count_eq_zero.mpr hm
-            simp [hm, this, Res.ofBool]
+            simp [hm, this]
         · obtain ⟨h1, h2⟩ := classScan_other c hc rest hr (cs ++ [']']) 0 hcs'
           rcases hsc : classScan c (cs ++ [']'] ++ rest) 0 with ⟨found, cnt, temp⟩
           rw [hsc] at h1 h2
@@ -1100,12 +1007,12 @@ theorem step_cls (f v : Nat) (cs rest : Str) (ws : List Word) (hK : ContOK f res
           have hc' : ¬ c = ']' := hc
           by_cases hm : c ∈ cs
           · simp [h1, hm, hq]
-          · simp [h1, hm, hc', Res.ofBool]
+          · simp [h1, hm, hc']
 
 theorem step_neg (f v : Nat) (s rest : Str) (ws : List Word) (hK : ContOK f rest ws v)
     (hs : ∀ x ∈ s, x ≠ ' ') (hs0 : at0 s 0 ≠ '\x00') (hsne : s ≠ []) (hr : restOK rest)
     (ts : List Tok) (hts : ∀ t ∈ ts, TokStrOK t = true) (p : Str) (hp : p = '!' :: '!' :: s ++ rest) :
-    interpBody f p ts v = Res.ofBool (semWords (.neg s :: ws) ts v) := by
+    interpBody f p ts v = langWords (.neg s :: ws) ts v := by
   have hw : ∀ x ∈ '!' :: '!' :: s, x ≠ ' ' := by
     intro x hx
     simp only [List.mem_cons] at hx
@@ -1125,17 +1032,17 @@ theorem step_neg (f v : Nat) (s rest : Str) (ws : List Word) (hK : ContOK f rest
   have hdrop : List.drop 2 p = s ++ rest := by rw [hp]; simp
   cases ts with
   | nil =>
-    simp only [interpBody, hne, if_false, hb0, hb1, hb2, ne_eq, not_false_eq_true, and_self, if_true, semWords,
+    simp only [interpBody, hne, if_false, hb0, hb1, hb2, ne_eq, not_false_eq_true, and_self, if_true, langWords,
       hskip]
     exact hK.2 [] (by simp)
   | cons t r =>
     have hr' : ∀ t' ∈ r, TokStrOK t' = true := fun t' h' => hts t' (by simp [h'])
     have htc := tokStrOK_iff t (hts t (by simp))
     simp only [interpBody, hne, if_false, hb0, hb1, hb2, show ('!' : Char) ≠ '[' by decide, false_and, ne_eq,
-      not_false_eq_true, and_self, if_true, semWords, hdrop]
+      not_false_eq_true, and_self, if_true, langWords, hdrop]
     rw [firstWordEquals_word rest hr t.str s hs (fun c hc => (htc c hc).1)]
     by_cases he : t.str = s
-    · simp [he, Res.ofBool]
+    · simp [he]
     · have hq := cont_eq f rest ws v hK hr r hr' (s ++ rest) (toSpace_append s rest hs hr)
       simp [he, hq]
 
@@ -1143,29 +1050,34 @@ theorem step_neg (f v : Nat) (s rest : Str) (ws : List Word) (hK : ContOK f rest
 theorem step_multi_cons (f v : Nat) (w rest : Str) (ws : List Word) (hK : ContOK f rest ws v)
     (hw : ∀ x ∈ w, x ≠ ' ') (hr : restOK rest) (hne : w ≠ [])
     (parts : List Str) (hb : bars parts = w) (hok : partsOK parts)
-    (hnul : ∀ a ∈ parts, ∀ c ∈ a, c ≠ '\x00') (hv : ∀ a ∈ parts, Atom.ofStr a = .cmd .varid → v ≠ 0)
+    (hnul : ∀ a ∈ parts, ∀ c ∈ a, c ≠ '\x00')
     (hncls : ¬(at0 (w ++ rest) 0 = '[' ∧ chrInFirstWord ']' (w ++ rest) = true))
     (hnbang : ¬(at0 (w ++ rest) 0 = '!' ∧ at0 (w ++ rest) 1 = '!' ∧ at0 (w ++ rest) 2 ≠ '\x00'))
     (t : Tok) (r : List Tok) (hts : ∀ t' ∈ t :: r, TokStrOK t' = true) :
     interpBody f (w ++ rest) (t :: r) v =
-      if ((parts.filter (· ≠ [])).map Atom.ofStr).any (·.eval t v) then Res.ofBool (semWords ws r v)
-      else if parts.any (· = []) then Res.ofBool (semWords ws (t :: r) v) else .f := by
+      match altsR ((parts.filter (· ≠ [])).map Atom.ofStr) t v with
+      | .t => langWords ws r v
+      | .err => .err
+      | .f => if parts.any (· = []) then langWords ws (t :: r) v else .f := by
   have hne' : w ++ rest ≠ [] := by simp [hne]
   have hr' : ∀ t' ∈ r, TokStrOK t' = true := fun t' h' => hts t' (by simp [h'])
-  have hmc := multiCompare_parts t v (hts t (by simp)) rest hr parts hok hnul hv
+  have hmc := multiCompare_parts t v (hts t (by simp)) rest hr parts hok hnul
   rw [hb] at hmc
   simp only [interpBody, hne', if_false, hncls, hnbang, hmc]
-  by_cases h1 : ((parts.filter (· ≠ [])).map Atom.ofStr).any (·.eval t v) = true
-  · simp only [h1, if_true]
+  cases h1 : altsR ((parts.filter (· ≠ [])).map Atom.ofStr) t v with
+  | t =>
+    simp only
     exact cont_eq f rest ws v hK hr r hr' (w ++ rest) (toSpace_append w rest hw hr)
-  · simp only [h1, Bool.false_eq_true, if_false]
+  | err => simp only
+  | f =>
+    simp only
     by_cases h2 : parts.any (· = []) = true
     · simp only [h2, if_true]
       by_cases h3 : t.str = [] ∧ rest = []
       · -- empty token text at the very end of the pattern: 1 instead of 0, same verdict
         simp only [h3, and_self, decide_true, if_true]
         rw [toSpace_word w [] hw (by simp [restOK])]
-        simp [hK.1 h3.2, semWords, Res.ofBool]
+        simp [hK.1 h3.2, langWords]
       · simp only [h3, decide_false, Bool.false_eq_true, if_false]
         rw [skipWord_word w rest hw hr]
         exact hK.2 (t :: r) hts
@@ -1176,7 +1088,7 @@ theorem step_multi_nil (f v : Nat) (w rest : Str) (ws : List Word) (hK : ContOK 
     (hncls : ¬(at0 (w ++ rest) 0 = '[' ∧ chrInFirstWord ']' (w ++ rest) = true))
     (hnbang : ¬(at0 (w ++ rest) 0 = '!' ∧ at0 (w ++ rest) 1 = '!' ∧ at0 (w ++ rest) 2 ≠ '\x00')) :
     interpBody f (w ++ rest) [] v =
-      if w.length > 1 ∧ w.getLast? = some '|' then Res.ofBool (semWords ws [] v) else .f := by
+      if w.length > 1 ∧ w.getLast? = some '|' then langWords ws [] v else .f := by
   have hne' : w ++ rest ≠ [] := by simp [hne]
   simp only [interpBody, hne', if_false, hnbang, hncls, not_false_eq_true, true_and,
     takeWhile_word w rest hw hr, skipWord_word w rest hw hr]
@@ -1218,21 +1130,16 @@ theorem take_two_eq (w : Str) (a b : Char) (h : w.take 2 = [a, b]) : w = a :: b 
     | nil => simp at h
     | cons y w => simp at h; simp [h.1, h.2]
 
-theorem usesVarid_cons (w : Word) (ws : List Word) (h : usesVarid (w :: ws) = false) :
-    usesVarid [w] = false ∧ usesVarid ws = false := by
-  simp only [usesVarid, List.any_cons, List.any_nil, Bool.or_false, Bool.or_eq_false_iff] at h ⊢
-  exact h
-
-/-- **main induction**: the interpreter loop on `p0` computes the word semantics of `parse p0` -/
+/-- **main induction**: the interpreter loop on `p0` computes the language on `parse p0`, the
+    InternalError under varid 0 included -/
 theorem interpLoop_eq (v : Nat) : ∀ (f : Nat) (p0 : Str) (ts : List Tok), p0.length < f →
     patternWF p0 = true → noNul p0 = true → (∀ t ∈ ts, TokStrOK t = true) →
-    (v ≠ 0 ∨ usesVarid (parse p0) = false) →
-    interpLoop f p0 ts v = Res.ofBool (semWords (parse p0) ts v) := by
+    interpLoop f p0 ts v = langWords (parse p0) ts v := by
   intro f
   induction f with
   | zero => intro p0 ts h; omega
   | succ f ih =>
-    intro p0 ts hlen hwf hnul hts hv
+    intro p0 ts hlen hwf hnul hts
     rw [interpLoop_succ]
     have hwp := words_skipSpaces p0
     have hhead := skipSpaces_head p0
@@ -1242,7 +1149,7 @@ theorem interpLoop_eq (v : Nat) : ∀ (f : Nat) (p0 : Str) (ts : List Tok), p0.l
     by_cases hpe : p = []
     · subst hpe
       have : parse p0 = [] := by simp [parse, ← hwp, words_nil]
-      simp [interpBody, this, semWords, Res.ofBool]
+      simp [interpBody, this, langWords]
     · obtain ⟨hsplit, hrest, hwsp⟩ := first_word p
       have hwne := takeWhile_ne_nil p hpe hhead
       generalize p.takeWhile (· ≠ ' ') = w at hsplit hwsp hwne
@@ -1261,14 +1168,9 @@ theorem interpLoop_eq (v : Nat) : ∀ (f : Nat) (p0 : Str) (ts : List Tok), p0.l
         have : 0 < w.length := List.length_pos_iff.mpr hwne
         simp only [List.length_append] at hplen
         omega
-      have hv' : v ≠ 0 ∨ (usesVarid [Word.ofStr w] = false ∧ usesVarid (parse rest) = false) := by
-        rcases hv with h | h
-        · exact Or.inl h
-        · rw [hparse] at h; exact Or.inr (usesVarid_cons _ _ h)
       have hK : ContOK f rest (parse rest) v :=
         ⟨fun e => by rw [e]; simp [parse, words_nil],
-         fun ts' hts' => ih rest ts' hlenr hwf'.2 hnulr hts'
-           (hv'.elim Or.inl (fun h => Or.inr h.2))⟩
+         fun ts' hts' => ih rest ts' hlenr hwf'.2 hnulr hts'⟩
       rw [hparse]
       have hwfw := hwf'.1
       unfold wordWF at hwfw
@@ -1289,38 +1191,21 @@ theorem interpLoop_eq (v : Nat) : ∀ (f : Nat) (p0 : Str) (ts : List Tok), p0.l
           have hmem := altCond_mem w ha
           have hnulp : ∀ a ∈ splitOn '|' w, ∀ c ∈ a, c ≠ '\x00' :=
             fun a ha' c hc' => hnulw c (mem_splitOn '|' w a ha' c hc')
-          have hvp : ∀ a ∈ splitOn '|' w, Atom.ofStr a = .cmd .varid → v ≠ 0 := by
-            intro a ha' hat
-            rcases hv' with h | h
-            · exact h
-            · exfalso
-              have h' := h.1
-              rw [hof] at h'
-              simp only [usesVarid, List.any_cons, List.any_nil, Bool.or_false, List.any_eq_false,
-                List.mem_map, List.mem_filter, decide_eq_true_eq] at h'
-              have hane : a ≠ [] := by
-                intro e; subst e; simp [Atom.ofStr, Cmd.ofStr] at hat
-              exact h' (Atom.ofStr a) ⟨a, ⟨ha', by simpa using hane⟩, rfl⟩ (by simp [hat])
           have hncls := notCls w rest hwsp hrest hwne h2
           have hnbang := notBang w rest hrest h1
           cases ts with
           | nil =>
             rw [step_multi_nil f v w rest (parse rest) hK hwsp hrest hwne hncls hnbang]
-            simp only [semWords]
+            simp only [langWords]
             have := alts_opt w hok hmem
             by_cases ho : (splitOn '|' w).any (· = []) = true
             · rw [if_pos (this.mp ho)]; simp [ho]
-            · rw [if_neg (fun h => ho (this.mpr h))]; simp [ho, Res.ofBool]
+            · rw [if_neg (fun h => ho (this.mpr h))]; simp [ho]
           | cons t r =>
             rw [step_multi_cons f v w rest (parse rest) hK hwsp hrest hwne (splitOn '|' w) (bars_splitOn w) hok
-              hnulp hvp hncls hnbang t r hts]
-            simp only [semWords]
-            by_cases hany : ((splitOn '|' w).filter (· ≠ []) |>.map Atom.ofStr).any (·.eval t v) = true
-            · simp only [hany, if_true]
-            · simp only [hany, Bool.false_eq_true, if_false]
-              by_cases ho : (splitOn '|' w).any (· = []) = true
-              · simp [ho]
-              · simp [ho, Res.ofBool]
+              hnulp hncls hnbang t r hts]
+            simp only [langWords]
+            cases altsR (List.map Atom.ofStr (List.filter (fun x => decide (x ≠ [])) (splitOn '|' w))) t v <;> simp
         · have ha' : altCond w = false := by simpa using ha
           by_cases hb : w.take 2 = ['!', '!']
           · -- `!!s`
@@ -1345,16 +1230,6 @@ theorem interpLoop_eq (v : Nat) : ∀ (f : Nat) (p0 : Str) (ts : List Tok), p0.l
             have hok : partsOK [w] := Or.inr h1
             have hnulp : ∀ a ∈ [w], ∀ c ∈ a, c ≠ '\x00' := by
               intro a ha'' c hc'; simp only [List.mem_singleton] at ha''; subst ha''; exact hnulw c hc'
-            have hvp : ∀ a ∈ [w], Atom.ofStr a = .cmd .varid → v ≠ 0 := by
-              intro a ha'' hat
-              simp only [List.mem_singleton] at ha''
-              subst ha''
-              rcases hv' with h | h
-              · exact h
-              · exfalso
-                have h' := h.1
-                rw [hof] at h'
-                simp [usesVarid, hat] at h'
             have hncls := notCls w rest hwsp hrest hwne (by simpa using h2)
             have hnbang := notBang w rest hrest hb
             cases ts with
@@ -1363,25 +1238,24 @@ theorem interpLoop_eq (v : Nat) : ∀ (f : Nat) (p0 : Str) (ts : List Tok), p0.l
               have : ¬(w.length > 1 ∧ w.getLast? = some '|') := by
                 intro hh
                 exact h3 (List.mem_of_getLast? hh.2)
-              simp [this, semWords, Res.ofBool]
+              simp [this, langWords]
             | cons t r =>
               rw [step_multi_cons f v w rest (parse rest) hK hwsp hrest hwne [w] rfl hok
-                hnulp hvp hncls hnbang t r hts]
-              simp only [semWords]
-              by_cases he : (Atom.ofStr w).eval t v = true
-              · simp [hwne, he]
-              · simp [hwne, he, Res.ofBool]
+                hnulp hncls hnbang t r hts]
+              simp only [langWords, List.filter_cons, hwne, ne_eq, not_false_eq_true, decide_true, if_true,
+                List.filter_nil, List.map_cons, List.map_nil, altsR, List.any_cons, List.any_nil,
+                decide_false, Bool.or_false, Bool.false_eq_true, if_false]
+              cases (Atom.ofStr w).evalR t v <;> rfl
 
 /-- the interpreter on a whole pattern -/
-theorem interpB_eq_semWords (p : Str) (ts : List Tok) (v : Nat) (hp : patternWF p = true)
-    (hn : noNul p = true) (hts : ∀ t ∈ ts, TokStrOK t = true)
-    (hv : v ≠ 0 ∨ usesVarid (parse p) = false) :
-    interpB p ts v = Res.ofBool (semWords (parse p) ts v) := by
+theorem interpB_eq_langWords (p : Str) (ts : List Tok) (v : Nat) (hp : patternWF p = true)
+    (hn : noNul p = true) (hts : ∀ t ∈ ts, TokStrOK t = true) :
+    interpB p ts v = langWords (parse p) ts v := by
   unfold interpB
   by_cases he : p = []
-  · subst he; simp [parse, words_nil, semWords, Res.ofBool]
+  · subst he; simp [parse, words_nil, langWords]
   · rw [if_neg he]
-    exact interpLoop_eq v (p.length + 1) p ts (by omega) hp hn hts hv
+    exact interpLoop_eq v (p.length + 1) p ts (by omega) hp hn hts
 
 /-! ## §6 simpleMatch -/
 
@@ -1500,5 +1374,15 @@ theorem usesVarid_lits : ∀ (ws : List Str), (∀ w ∈ ws, ∃ s, Word.ofStr w
   obtain ⟨s, hs⟩ := h w hw
   rw [hs]
   simp
+
+theorem langWords_lits (v : Nat) (ws : List Str) (ts : List Tok)
+    (h : ∀ w ∈ ws, ∃ s, Word.ofStr w = .one (.lit s)) :
+    langWords (ws.map Word.ofStr) ts v = Res.ofBool (exactWords ws ts) := by
+  rw [langWords_eq_semWords v _ ts (by
+    intro W hW
+    obtain ⟨w, hw, rfl⟩ := List.mem_map.1 hW
+    obtain ⟨s, hs⟩ := h w hw
+    rw [hs]
+    simp [wordOk, atomOk]), semWords_lits v ws ts h]
 
 end Cppcheck.Match
